@@ -8,6 +8,7 @@ use crate::runner::{classify, load_findings, VERIF_DIR};
 use serde_json::{json, Value};
 use std::time::{Duration, Instant};
 
+#[derive(Clone)]
 pub struct EsRun
 {
     pub label: String,
@@ -84,7 +85,7 @@ pub fn finish(
             let fsig: String = sig.chars().map(|c| if c.is_ascii_alphanumeric() { c } else { '_' }).take(60).collect();
             let path = format!("{dir}/{property}-{fsig}.json");
             let doc = json!({
-                "property": property, "kind": replay_kind, "engine": r.label, "signature": sig, "detail": detail,
+                "property": property, "kind": if r.label == "loom" { "c10-loom" } else { replay_kind }, "engine": r.label, "signature": sig, "detail": detail,
                 "history": hist, "replay_cmd": format!("./check {property} --replay {path}"),
             });
             let _ = std::fs::write(&path, serde_json::to_string_pretty(&doc).unwrap());
@@ -149,7 +150,7 @@ pub fn run_c10(tier: Tier) -> i32
     use crate::c10::*;
     let t0 = Instant::now();
     let deadline = deadline_for(tier, t0);
-    let depth = if tier == Tier::Quick { 7 } else { 12 };
+    let depth = 40; // the reachable state set is finite: the search runs to its fixed point (depth 12 on the pinned tree)
     let threads = std::thread::available_parallelism().map(|n| n.get()).unwrap_or(4).min(16);
     let stats = bfs::<Op10, Key10>(depth, Some(deadline), threads, &enabled10, &run10);
     let vacuous = stats.states < 10;
@@ -202,6 +203,21 @@ pub fn replay_es(property: &str, path: &str) -> i32
             }
             println!("no violation of {property} in this replay");
             0
+        }
+        "c10-loom" =>
+        {
+            let (run, code) = crate::loom_leg::run(Tier::Thorough);
+            if code != 0 { return code; }
+            match run
+            {
+                Some(r) if !r.violations.is_empty() =>
+                {
+                    for (sig, d, _) in r.violations.iter() { println!("  {sig} :: {d}"); }
+                    println!("VIOLATION property={property} replay={path}");
+                    1
+                }
+                _ => { println!("no violation of {property} in this replay"); 0 }
+            }
         }
         other => crate::es_more::replay(property, other, &hist, path),
     }
